@@ -253,6 +253,13 @@ print(json.dumps(out))
     return dict(unit="self-reference", func="Compiler (run-time check)", paths=len(cases), obligations=obs, wall=0.0)
 
 
+def unit_bounded_handlers(eng, tier="quick"):
+    """a diagnostic must also be PRINTED without an internal exception, in either report format (the renderers are string code outside the
+    subset: bounded stand-in shared with C07)"""
+    from contracts import c07
+    return c07.unit_bounded_handlers(eng, tier=tier)
+
+
 def unit_open_device(eng=None):
     """devices.open_device is where every output (and the listing) is opened; its callers handle IOError only: for every kind of bad path it
     returns a file object or raises IOError (OSError) - checked on the real function"""
@@ -344,7 +351,7 @@ def units(tier):
     us = [("mutation[%d]" % k, "unit_mutation", dict(shard=k, tier=tier)) for k in range(MUT_SHARDS)]
     for which, flag in (("get_as_int", None), ("get_as_int", False), ("get_as_str", None)):
         us.append(("%s[cyclic,%s]" % (which, flag), "unit_get_cyclic", dict(which=which, flag=flag)))
-    us += [("random-programs", "unit_random_programs", dict(tier=tier)), ("self-reference", "unit_self_reference", {}), ("open_device", "unit_open_device", {}), ("align", "unit_align_total", {}), ("bin", "unit_bin", {}),
+    us += [("random-programs", "unit_random_programs", dict(tier=tier)), ("self-reference", "unit_self_reference", {}), ("open_device", "unit_open_device", {}), ("bounded-handlers", "unit_bounded_handlers", dict(tier=tier)), ("align", "unit_align_total", {}), ("bin", "unit_bin", {}),
           ("awaiting", "unit_awaiting", {}), ("wait", "unit_wait", {}), ("wait-chain", "unit_wait_chain", {}), ("promise", "unit_promise", {}), ("number", "unit_number", {}), ("encode", "unit_encode", {}),
           ("charliteral", "unit_charliteral", {}), ("include", "unit_include", {}), ("insert_file", "unit_insert_file", {}), ("repeat", "unit_repeat", {}),
           ("resolve-register", "unit_resolve_register", {}), ("try_as_register", "unit_try_as_register", {}), ("try_accumulator", "unit_try_accumulator", {})]
